@@ -661,13 +661,14 @@ class Lower:
             out.append(cur.strip())
         return out
 
-    def emit_call(self, name, argl, rettype_node, ref=False):
+    def emit_call(self, name, argl, rettype_node, ref=False, ghost_key=None):
         """returns expression text; hoists may-throw calls into a temporary with an exception check"""
         call = '%s(%s)' % (name, ', '.join(argl))
-        for (fn, callee, when, code) in self.ghost_for(name):
+        ghosts = self.ghost_for(name) + (self.ghost_for(ghost_key) if ghost_key else [])   # ghost_key: the C++ name of a default-rule callee
+        for (fn, callee, when, code) in ghosts:
             if when == 'before':
                 self.pre.append(code)
-        after = [code for (fn, callee, when, code) in self.ghost_for(name) if when == 'after']
+        after = [code for (fn, callee, when, code) in ghosts if when == 'after']
         if name in self.may_throw or after:
             self.cur_calls.add(name)
             rt = self.ctype(rettype_node['type']) if rettype_node is not None else 'void'
@@ -852,7 +853,7 @@ class Lower:
                 self.throwing.add(name)
                 self.may_throw.add(name)
         self.assumptions.add('%s: result and effects unconstrained (default rule)' % label)
-        x = self.emit_call(name, argl, n if rt != 'void' else None, ref=isref)
+        x = self.emit_call(name, argl, n if rt != 'void' else None, ref=isref, ghost_key=label)
         if isref and rt != 'void':
             x = '(*%s)' % x
         return x
